@@ -309,6 +309,12 @@ func findPSMOptions(srcMsg protoreflect.MessageDescriptor) (*schema_j5pb.EntityO
 		}
 
 		psmExt = proto.GetExtension(msg.Options(), ext_j5pb.E_Psm).(*ext_j5pb.PSMOptions)
+		if psmExt != nil && psmExt.EntityPart != nil {
+			// The keys message states its part, which the legacy model never did. In
+			// the current model every part of an entity carries the extension itself,
+			// so a message that merely embeds the keys object is not a part.
+			return nil, nil
+		}
 	}
 
 	if psmExt == nil {
